@@ -452,7 +452,9 @@ def _division_connected(
     if use_graph_primitive:
         for i in range(num_regions):
             region = solver.bool_array(n)
-            solver.ensure(region == (division == i))
+            for j in range(n):
+                # `division` may be a plain sequence, for which `division == i` is not element-wise
+                solver.ensure(region[j] == (division[j] == i))
             _active_vertices_connected(solver, region.data, graph, use_graph_primitive=True)
 
             if not allow_empty_group:
